@@ -6,3 +6,6 @@
 (declare-fun fileByte ((_ BitVec 64)) (_ BitVec 8))
 ; si names the value computed by shuffleIndex (a pure function of its three arguments)
 (declare-fun si ((_ BitVec 64) (_ BitVec 64) (_ BitVec 64)) (_ BitVec 64))
+; fst names the value computed by feistel (a pure function); fiter(j, x, seed, bits) is its j-th iterate on x
+(declare-fun fst ((_ BitVec 64) (_ BitVec 64) (_ BitVec 64)) (_ BitVec 64))
+(declare-fun fiter ((_ BitVec 64) (_ BitVec 64) (_ BitVec 64) (_ BitVec 64)) (_ BitVec 64))
